@@ -3,7 +3,9 @@
 Spec : Encryption.tla: the data path of a cell  value -Bind-> bound value -Wire-> [bytes] -Decode-> value  with an
        opaque per-column bijection E/D for the cipher; null stays null at every stage.
 TLC  : enumerates column layouts (1-3 columns, every subset encrypted) x rows (0-2) of cells {null, v1, v2} x
-       positional / by-name binding x result metadata inline / from the prepared statement x protocol versions,
+       positional / by-name binding x result metadata inline / from the prepared statement x protocol versions
+       x {the decoding policy is the binding instance, a separate instance with the same keys and default (random)
+       IVs, a separate instance with explicit different IVs},
        checks transparency on the definition, dumps the cases.
 Bind : every case runs on the real AES256ColumnEncryptionPolicy: a PreparedStatement (decoded PREPARED message ->
        from_message, server-side type of an encrypted column = blob) carrying the policy, BoundStatement.bind per row;
@@ -16,6 +18,7 @@ Bind : every case runs on the real AES256ColumnEncryptionPolicy: a PreparedState
 """
 import json
 import os
+import random
 import subprocess
 import sys
 
@@ -35,7 +38,8 @@ META = {
     "level": "model_checking",
     "level_text": "Exhaustive over the bounded case space (1-3 columns of int/text, every subset encrypted, 0-2 rows, every cell in "
                   "{null, two values incl. a negative int and the empty string}, positional and by-name binding, result metadata "
-                  "inline and from the prepared statement, protocol versions); TLC proves transparency of the definition; on the "
+                  "inline and from the prepared statement, decoding by the same policy instance or by a separate one with the same "
+                  "keys and another IV, protocol versions); TLC proves transparency of the definition; on the "
                   "real code each bound cell is compared with the definition (encrypted cells must differ from the plain bytes and "
                   "decrypt to them) and the decoded parsed_rows must equal the inputs.",
     "level_note": "Trusted: TLC, harness/wire.py (ROWS / PREPARED bodies), the server modelled as returning the cell bytes it was "
@@ -46,44 +50,64 @@ META = {
 }
 
 KEY = bytes(bytearray(range(32)))
-IV = bytes(bytearray(range(100, 116)))
-WITNESSES = ["Witness_NullInEncryptedColumn", "Witness_MixedLayoutTwoRows", "Witness_EmptyStringEncrypted"]
+IV = bytes(bytearray(range(100, 116)))            # explicit IV of the writing policy
+IV2 = bytes(bytearray(range(200, 216)))           # explicit, different IV of a separate reading policy
+WITNESSES = ["Witness_NullInEncryptedColumn", "Witness_MixedLayoutTwoRows", "Witness_EmptyStringEncrypted",
+             "Witness_SeparateReaderPolicy"]
 
 
 def runs(ctx):
-    base = {"MaxCols": 3, "MaxRows": 2, "BindModes": {"seq", "map"}, "MetaModes": {"inline", "prepared"}}
+    modes = {"same", "default_ivs", "explicit_ivs"}
+    base = {"MaxCols": 3, "MaxRows": 2, "BindModes": {"seq", "map"}, "MetaModes": {"inline", "prepared"}, "PolicyModes": modes}
     if ctx.quick:
         return [dict(base, MaxCells=4, FreeTypes=False, PVs={4})]
-    return [dict(base, MaxCells=6, FreeTypes=False, PVs={3, 4, 5}), dict(base, MaxCells=4, FreeTypes=True, PVs={4})]
+    return [dict(base, MaxCells=6, FreeTypes=False, PVs={4}),
+            dict(base, MaxCells=4, FreeTypes=True, PVs={3, 4, 5}, PolicyModes={"same", "explicit_ivs"})]
 
 
 class Env:
-    """Policy, prepared statement and protocol handler per (layout, protocol version)."""
+    """Writing policy + prepared statement, reading policy + protocol handler per (layout, protocol version, policy mode)."""
 
-    def __init__(self):
+    def __init__(self, seed=0):
         self.cache = {}
+        self.rng = random.Random(seed)
         self.pol_mod = repo_import("cassandra.column_encryption.policies")
         self.policies = repo_import("cassandra.policies")
         self.proto = repo_import("cassandra.protocol")
         if not hasattr(self.pol_mod, "AES256ColumnEncryptionPolicy"):
             raise tlc.MachineryError("AES256ColumnEncryptionPolicy unavailable (cryptography not importable)")
 
-    def layout(self, cols, pv):
-        key = (tuple((c["ty"], bool(c["enc"])) for c in cols), pv)
+    def new_policy(self, iv):
+        """iv=None: the policy's own default, a random IV (drawn from the check's seeded generator instead of the OS)."""
+        if iv is not None:
+            return self.pol_mod.AES256ColumnEncryptionPolicy(iv=iv)
+        real = os.urandom
+        os.urandom = lambda n: bytes(bytearray(self.rng.getrandbits(8) for _ in range(n)))
+        try:
+            return self.pol_mod.AES256ColumnEncryptionPolicy()
+        finally:
+            os.urandom = real
+
+    def layout(self, cols, pv, mode="same"):
+        key = (tuple((c["ty"], bool(c["enc"])) for c in cols), pv, mode)
         if key in self.cache:
             return self.cache[key]
-        policy = self.pol_mod.AES256ColumnEncryptionPolicy(iv=IV)
+        # the policy that binds (writes) and the policy that decodes (reads): same keys, see Encryption.tla PolicyModes
+        policy = self.new_policy(None if mode == "default_ivs" else IV)
+        reader = policy if mode == "same" else self.new_policy(None if mode == "default_ivs" else IV2)
         descs = []
         for i, c in enumerate(cols, 1):
             d = self.policies.ColDesc(B.KS, B.TABLE, B.col_name(i))
             descs.append(d)
             if c["enc"]:
                 policy.add_column(d, KEY, c["ty"])
+                if reader is not policy:
+                    reader.add_column(d, KEY, c["ty"])
         server_types = ["blob" if c["enc"] else c["ty"] for c in cols]            # the table stores ciphertext in a blob
         columns = [(B.col_name(i), B.wire_type(t)) for i, t in enumerate(server_types, 1)]
         prepared = B.make_prepared(server_types, [], False, pv, policy=policy, result_columns=columns)
-        handler = type("verif-ProtocolHandler", (self.proto.ProtocolHandler,), {"column_encryption_policy": policy})
-        self.cache[key] = (policy, descs, prepared, handler, columns)
+        handler = type("verif-ProtocolHandler", (self.proto.ProtocolHandler,), {"column_encryption_policy": reader})
+        self.cache[key] = (policy, descs, prepared, handler, columns, reader)
         return self.cache[key]
 
 
@@ -97,7 +121,8 @@ def evaluate(env, case):
     cols, pv = case["cols"], case["pv"]
     obs = {"bound": [], "bind_error": None, "decoded": None, "decode_error": None}
     try:
-        policy, descs, prepared, handler, columns = env.layout(cols, pv)
+        policy, descs, prepared, handler, columns, reader = env.layout(cols, pv, case.get("pol", "same"))
+        obs["reader_iv"] = bytes(reader.iv).hex()
     except Exception as ex:              # noqa: a mutated driver may fail here
         obs["bind_error"] = "setup: %s: %s" % (type(ex).__name__, str(ex)[:200])
         return obs
@@ -176,13 +201,17 @@ def compare(env, st):
                             % (i, c, o["decrypts_to"], e["b"]), where + ":does-not-decrypt-to-serialization", rep)
     if len(obs["bound"]) != len(exp_bound):
         return ("bound %d rows of %d" % (len(obs["bound"]), len(exp_bound)), "bind:%s:rows" % case["bind"], rep)
+    pol = case.get("pol", "same")
+    # which policy instance decodes: the signature names it when it is not the one that bound
+    reader = "" if pol == "same" else ":reader-policy=separate-instance-%s" % pol
+    by = "" if pol == "same" else " (decoding policy: separate instance, same keys, %s)" % pol.replace("_", " ")
     if obs["decode_error"]:
-        return ("result decoder failed on %s result set: %s" % ("a" if not null_enc else "a null cell of an encrypted column in the",
-                                                                 obs["decode_error"]),
-                "decode:%s" % ("null-in-encrypted-column" if null_enc else "raised"), rep)
+        return ("result decoder failed on %s result set%s: %s" % (
+                    "a" if not null_enc else "a null cell of an encrypted column in the", by, obs["decode_error"]),
+                "decode:%s%s" % ("null-in-encrypted-column" if null_enc else "raised", reader), rep)
     if obs["decoded"] != exp_rows:
-        return ("decoded rows %r, inputs %r" % (obs["decoded"], exp_rows),
-                "decode:%s:rows-differ" % ("null-in-encrypted-column" if null_enc else "values"), rep)
+        return ("decoded rows %r, inputs %r%s" % (obs["decoded"], exp_rows, by),
+                "decode:%s:rows-differ%s" % ("null-in-encrypted-column" if null_enc else "values", reader), rep)
     return None
 
 
@@ -191,6 +220,7 @@ def witness_flags(case):
     return {
         "Witness_NullInEncryptedColumn": any(c["enc"] and cell["k"] == "null" for r in rows for c, cell in zip(cols, r)),
         "Witness_MixedLayoutTwoRows": len(rows) == 2 and any(c["enc"] for c in cols) and any(not c["enc"] for c in cols),
+        "Witness_SeparateReaderPolicy": case.get("pol", "same") != "same" and len(rows) >= 1,
         "Witness_EmptyStringEncrypted": any(c["enc"] and c["ty"] == "text" and cell["k"] == "val" and len(cell["v"]["s"]) == 0
                                             for r in rows for c, cell in zip(cols, r)),
     }
@@ -219,7 +249,7 @@ def run_compiled(ctx, path, vectors):
 
 
 def run(ctx):
-    env = Env()
+    env = Env(ctx.seed)
     n = 0
     by_signature = {}
     reached = dict.fromkeys(WITNESSES, False)
@@ -247,21 +277,22 @@ def run(ctx):
                 ctx.nontrivial(n)
             if n % every == 5:
                 ctx.sample({"case": case, "out": st["out"]})
-            if probe is None and len(case["rows"]) >= 1 and len(case["cols"]) >= 2 and \
+            if probe is None and case["pol"] == "same" and len(case["rows"]) >= 1 and len(case["cols"]) >= 2 and \
                     all(cell["k"] == "val" for row in case["rows"] for cell in row) and any(c["enc"] for c in case["cols"]):
                 probe = st
             if cpath:
                 obs = evaluate(env, case)
                 if obs.get("body") and not obs["bind_error"]:
                     vectors.append({"cols": [[c["ty"], bool(c["enc"])] for c in case["cols"]], "pv": case["pv"],
-                                    "inline": case["meta"] == "inline", "body": obs["body"],
+                                    "inline": case["meta"] == "inline", "body": obs["body"], "reader_iv": obs["reader_iv"],
+                                    "pol": case["pol"],
                                     "rows": expected(case, st["out"])[1]})
             if r:
                 by_signature[r[1]] = by_signature.get(r[1], 0) + 1
                 if by_signature[r[1]] == 1:
-                    ctx.violation("%s | columns %s bind=%s meta=%s pv=%d rows=%r" % (
+                    ctx.violation("%s | columns %s bind=%s meta=%s policies=%s pv=%d rows=%r" % (
                         r[0], [(c["ty"], "enc" if c["enc"] else "clear") for c in case["cols"]], case["bind"], case["meta"],
-                        case["pv"], r[2]["spec"]["rows"]), replay=r[2], signature=r[1])
+                        case["pol"], case["pv"], r[2]["spec"]["rows"]), replay=r[2], signature=r[1])
     if not all(reached.values()):
         raise tlc.MachineryError("vacuity: not reached: %s" % sorted(k for k, v in reached.items() if not v))
     if not ctx.quick:
@@ -298,20 +329,24 @@ def run(ctx):
         if b["t"] == "cipher":
             b["b"] = tuple(b["b"]) + (0,)
     rejected += bool(compare(env, {"case": probe["case"], "out": dict(out, bound=bad_bound)}))
-    if rejected != 2:
+    # when the code under test already diverges from the definition the probe case may itself be a failing one; the
+    # self-test is then not meaningful and must not mask the violation with a machinery failure
+    if rejected != 2 and not by_signature:
         raise tlc.MachineryError("binding self-test failed: %d of 2 corrupted expectations detected" % rejected)
-    ctx.note("binding_selftest", {"corrupted_rejected": rejected})
+    ctx.note("binding_selftest", {"corrupted_rejected": rejected, "meaningful": not by_signature})
     ctx.assumptions += ["the server returns for a cell the [bytes] it was sent (ROWS body assembled by harness/wire.py)",
-                        "int / text columns, two values each; the cipher is the real AES256 policy with a fixed key and IV",
+                        "int / text columns, two values each; the cipher is the real AES256 policy with a fixed key; writing and reading "
+                        "policy: same instance / separate instances with default random IVs (drawn from the seeded generator) / "
+                        "separate instances with explicit different IVs - the IV travels with the ciphertext (PYTHON-1350)",
                         "compiled decoder only when VERIF_COMPILED_REPO is supplied"]
 
 
 def replay(ctx, obj):
-    env = Env()
+    env = Env(ctx.seed)
     case = obj["case"]
     obs = evaluate(env, case)
     print("columns:", [(c["ty"], "encrypted" if c["enc"] else "clear") for c in case["cols"]], "bind:", case["bind"],
-          "metadata:", case["meta"], "pv:", case["pv"])
+          "metadata:", case["meta"], "pv:", case["pv"], "policies:", case.get("pol", "same"))
     print("input rows  :", obj["spec"]["rows"])
     print("bound       :", obs["bound"], obs["bind_error"] or "")
     print("decoded rows:", obs["decoded"], obs["decode_error"] or "")
@@ -341,7 +376,7 @@ def _compiled_main(path, vec_file):
     failures = {}
     handlers = {"ProtocolHandler": proto.ProtocolHandler, "LazyProtocolHandler": proto.LazyProtocolHandler}
     for v in vectors:
-        policy = AES256ColumnEncryptionPolicy(iv=IV)
+        policy = AES256ColumnEncryptionPolicy(iv=bytes.fromhex(v["reader_iv"]))       # the READING policy of the case
         md = []
         for i, (ty, enc) in enumerate(v["cols"], 1):
             d = ColDesc(B.KS, B.TABLE, B.col_name(i))
@@ -358,7 +393,8 @@ def _compiled_main(path, vec_file):
             except Exception as ex:      # noqa
                 what = "%s: %s" % (type(ex).__name__, str(ex)[:300])
             if what:
-                sig = "%s:decode:%s" % (hname, "null-in-encrypted-column" if null_enc else "values")
+                sig = "%s:decode:%s%s" % (hname, "null-in-encrypted-column" if null_enc else "values",
+                                          "" if v["pol"] == "same" else ":reader-policy=separate-instance-%s" % v["pol"])
                 failures.setdefault(sig, {"what": what, "vector": v})
     print(json.dumps({"handlers": sorted(handlers), "vectors": len(vectors), "failures": failures}))
 
